@@ -21,7 +21,7 @@ type Exec func(hists [][]int, handle func(i int, key string, terminal bool))
 // BFS explores all histories over ops 0..alpha-1 up to maxDepth. With dedup,
 // a history whose key was seen before is not expanded (the caller supplies the
 // argument why merged states have equal futures).
-func BFS(alpha func(depth int) []int, maxDepth int, dedup bool, deadline time.Time, exec Exec) Stats {
+func BFS(alpha func(hist []int) []int, maxDepth int, dedup bool, deadline time.Time, exec Exec) Stats {
 	var st Stats
 	seen := map[string]struct{}{}
 	frontier := [][]int{{}}
@@ -30,10 +30,9 @@ func BFS(alpha func(depth int) []int, maxDepth int, dedup bool, deadline time.Ti
 			st.Capped = true
 			break
 		}
-		ops := alpha(d)
-		batch := make([][]int, 0, len(frontier)*len(ops))
+		batch := make([][]int, 0, len(frontier))
 		for _, h := range frontier {
-			for _, o := range ops {
+			for _, o := range alpha(h) {
 				nh := make([]int, len(h)+1)
 				copy(nh, h)
 				nh[len(h)] = o
